@@ -516,9 +516,13 @@ func (e *Exec) binop(fr *Frame, st *State, x *ssa.BinOp) Value {
 			if q, ok := pr[0].(*ssa.BinOp); ok && q.Op == token.QUO && q.Y == pr[1] {
 				a := e.term(fr, st, q.X)
 				b := e.term(fr, st, q.Y)
-				prod := App(SInt, "*", App(SInt, "tdiv", a, b), b)
+				prod := App(SInt, "*", App(SInt, e.divFun(q.Y), a, b), b)
 				e.assume(st.pc, Implies(And(Le(IntLit(0), a), Lt(IntLit(0), b)), And(Le(IntLit(0), prod), Le(prod, a), Lt(Sub(a, prod), b))))
 				e.assume(st.pc, Implies(And(Le(IntLit(0), a), Lt(IntLit(0), b)), Eq(App(SInt, "mod", prod, b), IntLit(0))))
+				// the same facts for the product term the code goes on with (the quotient of a non-negative
+				// dividend lies in [0, a], so its machine value is its mathematical value)
+				raw2 := App(SInt, "*", at, bt)
+				e.assume(st.pc, Implies(And(Le(IntLit(0), a), Lt(IntLit(0), b)), And(Le(IntLit(0), raw2), Le(raw2, a), Lt(Sub(a, raw2), b))))
 			}
 		}
 		raw := App(SInt, "*", at, bt)
@@ -532,7 +536,13 @@ func (e *Exec) binop(fr *Frame, st *State, x *ssa.BinOp) Value {
 	case token.QUO:
 		e.safety(st, "safe:div", render(x, 0), Not(Eq(bt, IntLit(0))), e.posOf(x), at, bt)
 		e.assume(st.pc, Not(Eq(bt, IntLit(0))))
-		raw := App(SInt, "tdiv", at, bt)
+		raw := App(SInt, e.divFun(x.Y), at, bt)
+		if e.divFun(x.Y) == "tdivu" {
+			// division by a variable kept abstract (option abstract-div): only its linear consequences are given
+			e.assume(st.pc, Implies(And(Le(IntLit(0), at), Lt(IntLit(0), bt)), And(Le(IntLit(0), raw), Le(raw, at))))
+			e.assume(st.pc, Implies(Eq(bt, IntLit(1)), Eq(raw, at)))
+			e.assume(st.pc, Implies(And(Le(IntLit(0), at), Lt(at, bt)), Eq(raw, IntLit(0))))
+		}
 		e.exactArith(fr, st, x, "quo", x.X, x.Y, at, bt)
 		return e.def(SInt, ii.wrap(raw, true))
 	case token.REM:
@@ -1204,4 +1214,21 @@ func (e *Exec) onStore(fr *Frame, st *State, x *ssa.Store, c *Contract) {
 		e.clauseUsed[os.Field+":"+lbl]++
 		e.oblige(st, "on-store", os.Field+":"+lbl, g, e.posOf(x))
 	}
+}
+
+// divFun: truncated division is the SMT definition, except for a non-constant divisor in a function whose
+// contract asks for abstract division (the solvers are slow on div by a variable; the linear facts about the
+// quotient are supplied where the code divides and where it multiplies the quotient back).
+func (e *Exec) divFun(divisor ssa.Value) string {
+	if _, isConst := divisor.(*ssa.Const); isConst {
+		return "tdiv"
+	}
+	if c := e.contractOf(e.Root); c != nil && c.Options["abstract-div"] {
+		if !e.declared["tdivu"] {
+			e.declared["tdivu"] = true
+			e.emit("(declare-fun tdivu (Int Int) Int)")
+		}
+		return "tdivu"
+	}
+	return "tdiv"
 }
